@@ -4,44 +4,6 @@
 // The Pearce-Kelly reordering `update_ordering` itself is TRUSTED here (contract: Err = unchanged, Ok = graph untouched).
 // ======================================================================================
 
-//@ item src/data.rs | - | trait Build
-/// A graph that can be extended with further nodes and edges
-pub trait Build: Data + NodeCount /*+*/+ Sized/*-*/ {   // (D26: `Sized` added so that `unchanged` can be stated as equality; every implementor is a sized type)
-    /*+*/
-    /// `post` is `pre` with the edge a -> b (weight w) added or updated, e its id (what that means is the implementor's business)
-    spec fn edge_put(pre: &Self, a: Self::NodeId, b: Self::NodeId, post: &Self, e: Self::EdgeId) -> bool;
-    /*-*/
-    fn add_node(&mut self, weight: Self::NodeWeight) -> Self::NodeId;
-    /// Add a new edge. If parallel edges (duplicate) are not allowed and
-    /// the edge already exists, return `None`.
-    ///
-    /// Might panic if `a` or `b` are out of bounds.
-    #[track_caller]
-    fn add_edge(
-        &mut self,
-        a: Self::NodeId,
-        b: Self::NodeId,
-        weight: Self::EdgeWeight,
-    ) -> (r: Option<Self::EdgeId>)
-        /*+*/ensures match r { Some(e) => Self::edge_put(old(self), a, b, final(self), e), None => *final(self) == *old(self) }/*-*/
-    {
-        Some(self.update_edge(a, b, weight))
-    }
-    /// Add or update the edge from `a` to `b`. Return the id of the affected
-    /// edge.
-    ///
-    /// Might panic if `a` or `b` are out of bounds.
-    #[track_caller]
-    fn update_edge(
-        &mut self,
-        a: Self::NodeId,
-        b: Self::NodeId,
-        weight: Self::EdgeWeight,
-    ) -> (r: Self::EdgeId)
-        /*+*/ensures Self::edge_put(old(self), a, b, final(self), r)/*-*/;
-}
-//@ end
-
 //@ item src/algo/mod.rs | - | struct Cycle
 /// An algorithm error: a cycle was found in the graph.
 pub struct Cycle<N>(pub N);
@@ -71,10 +33,154 @@ impl<N> From<Cycle<N>> for AcyclicEdgeError<N> {
 }
 //@ end
 
+impl<G: Visitable> Acyclic<G> {
+    /// D21 stand-in for the tail of `update_ordering` (TRUSTED): the nodes of the two cones exchange their positions; the graph is not touched
+    #[verifier::external_body]
+    pub fn reassign_positions(&mut self, b_fut: BTreeMap<TopologicalPosition, G::NodeId>, a_past: BTreeMap<TopologicalPosition, G::NodeId>)
+        ensures final(self).graph == old(self).graph
+    { unimplemented!() }
+}
+
+impl<G: Visitable> Acyclic<G> {
+//@ item src/acyclic/order_map.rs | impl<G: Visitable> super::Acyclic<G> | fn get_position
+    /// Get the position of a node in the topological sort.
+    ///
+    /// Panics if the node index is out of bounds.
+    #[track_caller]
+    pub fn get_position<'a>(&'a self, id: G::NodeId) -> (r: TopologicalPosition)
+    where
+        &'a G: NodeIndexable + GraphBase<NodeId = G::NodeId>/*+*/,
+        requires (&self.graph).ix_of(id) < self.order_map.n2p().len()          // the documented panic
+        ensures r == self.order_map.n2p()[(&self.graph).ix_of(id) as int]/*-*/,
+    {
+        self.order_map.get_position(id, &self.graph)
+    }
+//@ end
+}
+
 impl<G: Visitable + NodeIndexable> Acyclic<G>
 where
     for<'a> &'a G: IntoNeighborsDirected + IntoNodeIdentifiers + GraphBase<NodeId = G::NodeId>,
 {
+    /*+*/
+    /// the position recorded for node a
+    pub open spec fn pos(&self, a: G::NodeId) -> TopologicalPosition { self.order_map.n2p()[self.graph.ix_of(a) as int] }
+    /// `get_position(a)` does not panic
+    pub open spec fn known(&self, a: G::NodeId) -> bool { self.graph.ix_of(a) < self.order_map.n2p().len() }
+    /// UNINTERPRETED: what the bounded search of `causal_cones(min_node, max_node)` finds - "the future of min_node reaches
+    /// max_node inside the window of positions between the two" (the two DFS runs themselves are TRUSTED, see causal_cones)
+    pub uninterp spec fn window_reaches(&self, min_node: G::NodeId, max_node: G::NodeId) -> bool;
+    /// the edge a -> b is refused: a self-loop, or b sits before a and the search from b reaches a
+    pub open spec fn rejects(&self, a: G::NodeId, b: G::NodeId) -> bool
+        where G::NodeId: IndexType
+    {
+        a.ix() == b.ix() || (self.pos(b).0 < self.pos(a).0 && self.window_reaches(b, a))
+    }
+    /*-*/
+
+//@ item src/acyclic.rs | impl<G: Visitable + NodeIndexable> Acyclic<G> where for<'a> &'a G: IntoNeighborsDirected + IntoNodeIdentifiers + GraphBase<NodeId = G::NodeId> | fn is_valid_edge
+    /// Check if an edge would be valid, i.e. adding it would not create a cycle.
+    ///
+    /// **Panics** if `a` or `b` are not found.
+    pub fn is_valid_edge(&self, a: G::NodeId, b: G::NodeId) -> (r: bool)
+    where
+        G::NodeId: IndexType/*+*/,
+        requires self.known(a), self.known(b),
+            // distinct nodes have distinct positions (what OrderMap::inv gives for two present nodes)
+            a.ix() != b.ix() ==> self.pos(a) != self.pos(b),
+        ensures r == !self.rejects(a, b)/*-*/,            // [is_valid_edge_predicts_try_add_edge]
+    {
+        /*+*/proof { <G::NodeId as IndexType>::eq_law(); }/*-*/
+        if a == b {
+            false // No self-loops
+        } else if self.get_position(a) < self.get_position(b) {
+            true // valid edge in the current topological order
+        } else {
+            // Check if the future of `b` is disjoint from the past of `a`
+            // (in which case the topological order could be adjusted)
+            self.causal_cones(b, a).is_ok()
+        }
+    }
+//@ end
+
+//@ item src/acyclic.rs | impl<G: Visitable + NodeIndexable> Acyclic<G> where for<'a> &'a G: IntoNeighborsDirected + IntoNodeIdentifiers + GraphBase<NodeId = G::NodeId> | fn causal_cones
+    /// Use DFS to find the future causal cone of `min_node` and the past causal
+    /// cone of `max_node`.
+    ///
+    /// The cones are trimmed to the range `[min_order, max_order]`. The cones
+    /// are returned if they are disjoint. Otherwise, a [`Cycle`] error is returned.
+    ///
+    /// If `return_result` is false, then the cones are not constructed and the
+    /// method only checks for disjointness.
+    // TRUSTED (two bounded DFS runs over RefCell'd scratch bit sets, closures returning Result, BTreeMap adapters): the contract
+    // only NAMES its answer - Err exactly when `window_reaches(min_node, max_node)` - so that callers are checked for asking the
+    // right question (which node is the start, which the goal); the body is pinned by the audit, a change to it is a conflict
+    #[allow(clippy::type_complexity)]
+    /*+*/#[verifier::external_body]/*-*/
+    fn causal_cones(
+        &self,
+        min_node: G::NodeId,
+        max_node: G::NodeId,
+    ) -> /*+*/(r:/*-*/ Result<
+        (
+            BTreeMap<TopologicalPosition, G::NodeId>,
+            BTreeMap<TopologicalPosition, G::NodeId>,
+        ),
+        Cycle<G::NodeId>,
+    >/*+*/)/*-*/
+    where
+        G::NodeId: IndexType/*+*/,
+        ensures r is Err <==> self.window_reaches(min_node, max_node)/*-*/,
+    {
+        /*R:D20 debug_assert!(self.discovered.borrow().is_clear());
+        debug_assert!(self.finished.borrow().is_clear());
+
+        let min_order = self.get_position(min_node);
+        let max_order = self.get_position(max_node);
+
+        // Prepare DFS scratch space: make sure the maps have enough capacity
+        if self.discovered.borrow().len() < self.graph.node_bound() {
+            self.discovered.borrow_mut().grow(self.graph.node_bound());
+            self.finished.borrow_mut().grow(self.graph.node_bound());
+        }
+
+        // Get all nodes reachable from b with min_order <= order < max_order
+        let mut forward_cone = BTreeMap::new();
+        let mut backward_cone = BTreeMap::new();
+
+        // The main logic: run DFS twice. We run this in a closure to catch
+        // errors and reset the maps properly at the end.
+        let mut run_dfs = || {
+            // Get all nodes reachable from min_node with min_order < order <= max_order
+            self.future_cone(min_node, min_order, max_order, &mut forward_cone)?;
+
+            // Get all nodes that can reach a with min_order < order <= max_order
+            // These are disjoint from the nodes in the forward cone, otherwise
+            // we would have a cycle.
+            self.past_cone(max_node, min_order, max_order, &mut backward_cone)
+                .expect("cycles already checked in future_cone");
+
+            Ok(())
+        };
+
+        let success = run_dfs();
+
+        // Cleanup: reset map to 0. This is faster than a full reset, especially
+        // on large sparse graphs.
+        for &v in forward_cone.values().chain(backward_cone.values()) {
+            self.discovered.borrow_mut().set(v.index(), false);
+            self.finished.borrow_mut().set(v.index(), false);
+        }
+        debug_assert!(self.discovered.borrow().is_clear());
+        debug_assert!(self.finished.borrow().is_clear());
+
+        match success {
+            Ok(()) => Ok((forward_cone, backward_cone)),
+            Err(cycle) => Err(cycle),
+        } */ unimplemented!() /*-*/
+    }
+//@ end
+
 //@ item src/acyclic.rs | impl<G: Visitable + NodeIndexable> Acyclic<G> where for<'a> &'a G: IntoNeighborsDirected + IntoNodeIdentifiers + GraphBase<NodeId = G::NodeId> | fn try_add_edge
     #[track_caller]
     pub fn try_add_edge(
@@ -86,11 +192,16 @@ where
     where
         G: Build,
         G::NodeId: IndexType/*+*/,
+        requires a.ix() != b.ix() ==> old(self).graph.add_edge_pre(a, b),    // the inner graph's own (documented) panic condition
+            a.ix() != b.ix() ==> old(self).known(a) && old(self).known(b),      // "Panics if a or b are not found"
         ensures
+            (r matches Err(AcyclicEdgeError::SelfLoop) || r matches Err(AcyclicEdgeError::Cycle(_))) ==> old(self).rejects(a, b),   // [try_add_edge_rejects_only_if_is_valid_edge_false]
+            // (which error: this Verus leaves the value that `?` converts with `From` unspecified, so only "an error" can be stated here)
+            old(self).rejects(a, b) ==> r is Err,                                                                                    // [try_add_edge_rejects_if_is_valid_edge_false]
             a.ix() == b.ix() ==> r is Err && final(self).graph == old(self).graph && final(self).order_map == old(self).order_map,   // [try_add_edge_rejects_self_loop_unchanged]
             r is Err ==> final(self).graph == old(self).graph,                                                                       // [try_add_edge_rejected_graph_unchanged]
             r matches Err(AcyclicEdgeError::Cycle(_)) ==> final(self).order_map == old(self).order_map,                              // [try_add_edge_cycle_changes_nothing]
-            r matches Ok(e) ==> G::edge_put(&old(self).graph, a, b, &final(self).graph, e)/*-*/,                                       // [try_add_edge_ok_is_inner_add_edge]
+            r matches Ok(e) ==> G::edge_added(&old(self).graph, a, b, weight, &final(self).graph, e)/*-*/,                              // [try_add_edge_ok_is_inner_add_edge]
     {
         /*+*/proof { <G::NodeId as IndexType>::eq_law(); }/*-*/
         if a == b {
@@ -114,10 +225,13 @@ where
     where
         G: Build,
         G::NodeId: IndexType/*+*/,
+        requires a.ix() != b.ix() ==> old(self).graph.update_edge_pre(a, b),
+            a.ix() != b.ix() ==> old(self).known(a) && old(self).known(b),
         ensures
+            r is Err <==> old(self).rejects(a, b),                                                                 // [try_update_edge_rejects_iff_is_valid_edge_false]
             a.ix() == b.ix() ==> r is Err,
             r is Err ==> final(self).graph == old(self).graph && final(self).order_map == old(self).order_map,    // [try_update_edge_rejected_changes_nothing]
-            r matches Ok(e) ==> G::edge_put(&old(self).graph, a, b, &final(self).graph, e)/*-*/,                    // [try_update_edge_ok_is_inner_update_edge]
+            r matches Ok(e) ==> G::edge_put(&old(self).graph, a, b, weight, &final(self).graph, e)/*-*/,            // [try_update_edge_ok_is_inner_update_edge]
     {
         /*+*/proof { <G::NodeId as IndexType>::eq_law(); }/*-*/
         if a == b {
@@ -136,16 +250,18 @@ where
     /// If a cycle is detected, an error is returned and `self` remains unchanged.
     ///
     /// Implements the core update logic of the PK algorithm.
-    // TRUSTED (Pearce-Kelly: RefCell'd scratch bit sets, generic DFS, BTreeMap/BTreeSet adapters): the contract below is its doc
-    // comment - Err leaves self unchanged - plus `the graph is not touched`
+    // The decision part is verified: when the order is already right nothing happens; otherwise the question put to
+    // `causal_cones` is "does the future of b reach a".  The reassignment of positions that follows a negative answer
+    // (BTreeSet / chain / zip adapters) is TRUSTED: D21 writes it as a call of `reassign_positions`, contract: the graph is not touched.
     #[track_caller]
-    /*+*/#[verifier::external_body]/*-*/
     fn update_ordering(&mut self, a: G::NodeId, b: G::NodeId) -> (r: Result<(), Cycle<G::NodeId>>)
     where
         G::NodeId: IndexType/*+*/,
-        ensures final(self).graph == old(self).graph, r is Err ==> final(self).order_map == old(self).order_map/*-*/,
+        requires old(self).known(a), old(self).known(b),
+        ensures final(self).graph == old(self).graph, r is Err ==> final(self).order_map == old(self).order_map,
+            r is Err <==> (old(self).pos(b).0 < old(self).pos(a).0 && old(self).window_reaches(b, a))/*-*/,   // [update_ordering_rejects_iff_cone_reaches]
     {
-        /*R:D20 let min_order = self.get_position(b);
+        let min_order = self.get_position(b);
         let max_order = self.get_position(a);
         if min_order >= max_order {
             // Order is already correct
@@ -159,15 +275,15 @@ where
         // Now reorder of nodes in a_past and b_fut such that
         //  i) within each vec, the nodes are in topological order,
         // ii) all elements of b_fut come before all elements of a_past in the new order.
-        let all_positions: BTreeSet<_> = b_fut.keys().chain(a_past.keys()).copied().collect();
+        /*R:D21 let all_positions: BTreeSet<_> = b_fut.keys().chain(a_past.keys()).copied().collect();
         let all_nodes = a_past.values().chain(b_fut.values()).copied();
 
         debug_assert_eq!(all_positions.len(), b_fut.len() + a_past.len());
 
         for (pos, node) in all_positions.into_iter().zip(all_nodes) {
             self.order_map.set_position(node, pos, &self.graph);
-        }
-        Ok(()) */ unimplemented!() /*-*/
+        } */ self.reassign_positions(b_fut, a_past); /*-*/
+        Ok(())
     }
 //@ end
 }
